@@ -1,4 +1,5 @@
 import XpmVerif.Proofs.RestartLink
+import XpmVerif.Proofs.RestartTerm
 import XpmVerif.Generated.SchedFlags
 /-! C11 — restarting a killed experiment adopts running jobs and repeats nothing.
     Property theorems only.  Model M4 (`Model/Restart.lean`): the scheduler M2 with the adoption path of
@@ -178,6 +179,123 @@ theorem launch_regenerates_script (fl : Flags) (a : StA Disk) (j : Nat)
     (a'.d.dir ((a.s.resume fl j).jobs j).ident).pid = some a.d.np ∧ a'.d.np = a.d.np + 1 := by
   simp [runCbA, hl, world, Disk.setDir, Disk.spawn, upd]
 
+/-! ### the second run: "the second run reaches the same final results"
+
+    FULL STATEMENT (proved below only for restarts that find no live process): from every world
+    `WReach fl totals done0 w`, after the crash (`w.restart`) and the re-submission of the experiment to the new
+    scheduler, every maximal run of the second scheduler (no callback, no helper-thread completion, no process move
+    possible any more) is finite and ends with every job final, where
+    (a) every job reported DONE has its marker, exactly one successful body, and `bodies = 1` for its directory if no
+        body of it failed,
+    (b) every token is full again.
+    An exhaustive search of the restart world (all interleavings of the first run, every crash point of the three kinds,
+    re-submission, all interleavings of the second run; 1 job / failing job + dependent / chain of 3 / 2 jobs on 1 token
+    / token + job dependency) finds no violating terminal world and no cycle, adoption included.
+
+    PROVED below (`restart_run_finite_partial`, `restart_never_adopts_partial`,
+    `restart_maximal_run_all_final_partial`, `restart_maximal_run_exists_partial`): the full statement for every restart
+    at which no pid file names a live process (every crash after the job processes have exited, every crash before a
+    pid file is written — `crashAfterSpawn`, `crashInPrepare`, with their orphan processes —, a crash that takes the
+    job processes with it) and a re-submission with pairwise distinct identifiers.  Such a scheduler never adopts
+    (proved, not assumed), its callbacks are those of M2 up to the overwriting of `marker` / `code`, which no invariant
+    and not the termination measure of C06 can see; the job processes (the new ones and the orphans of the first run)
+    add their own rank; a run lock held by the scheduler belongs to a job between its lock-enter and lock-exit threads,
+    so a world without enabled event has a scheduler with nothing pending, and the deadlock-freedom argument of C06
+    applies.
+
+    MISSING for the full statement: adoption (a pid file names a live process at the restart).  An adopted job is
+    RUNNING at `codeWait` with no launch, no lock held and possibly unsatisfied dependencies; it can even be set to
+    ERROR by a failing dependency while its process runs and then overwritten by the exit code.  The invariant stack of
+    M2 behind `every_run_finite` (`JLocal`, `JDeep.readyDeps/runRunning`, `XInv`, the capacity invariant
+    `held = range`) excludes such records and would have to be generalised clause by clause, with a measure in which
+    an adopted job skips the lock segments. -/
+
+/-- **the second run is finite (partial: finiteness only, restarts that find no live process)**.  Let `w` be any
+    reachable world (any first run, crashed at any point, any number of earlier crashes) such that after the crash no
+    pid file names a live process (`NoLivePid`: orphan processes without pid file, waiting for or holding the job lock,
+    are allowed), and let the new scheduler take the re-submission `xs` (well-formed dependencies, no token asked twice
+    by one job, pairwise distinct identifiers, each submission carrying the marker its directory shows).  Then every
+    sequence `evs` of events of the second run — callbacks, completions of helper threads that the world lets complete
+    (lock free, process exited), moves of job processes — has at most `wmu` events, where
+    `wmu = 4 · (termination measure of C06 on the scheduler state) + (steps the job processes still have to make)`
+    is computed on the world right after the re-submission; and no step of it adopts a process. -/
+theorem restart_run_finite_partial {fl : Flags} (hg : fl.readyGuarded = true) (hf : fl.resubmitRegisters = true)
+    (ha : fl.abortRechecks = true) (hrel : fl.abortReleases = true) {totals : List Nat} {done0 : Nat → Bool} {w : W}
+    (hW : WReach fl totals done0 w) (hnl : RestartTerm.NoLivePid w.restart.a.d) (xs : List RestartTerm.Sub)
+    (hok : RestartTerm.SubsOK fl w.restart.a.d (St.init w.totals) xs) (evs : List WEv)
+    (hrun : RestartTerm.RunE fl (RestartTerm.resubmitted fl w xs) evs) :
+    evs.length ≤ RestartTerm.wmu (RestartTerm.resubmitted fl w xs) ∧
+    RestartTerm.RunW fl (RestartTerm.resubmitted fl w xs) evs := by
+  obtain ⟨h1, h2, _⟩ := RestartTerm.restart_run_finite_partial hg hf ha hrel hW hnl xs hok evs hrun
+  exact ⟨h1, h2⟩
+
+/-- **the second run never adopts when it found no live process (partial: same hypotheses)**: in the world right after
+    the re-submission and in every world reached from it by a run of the second scheduler, the first segment of a job
+    (callback `start j` at the head of the queue) finds no live process behind the pid file of its directory — a pid
+    file that names a live process has been written by this scheduler for a job it launched, and identifiers are
+    distinct. -/
+theorem restart_never_adopts_partial {fl : Flags} (hg : fl.readyGuarded = true) (hf : fl.resubmitRegisters = true)
+    (ha : fl.abortRechecks = true) (hrel : fl.abortReleases = true) {totals : List Nat} {done0 : Nat → Bool} {w : W}
+    (hW : WReach fl totals done0 w) (hnl : RestartTerm.NoLivePid w.restart.a.d) (xs : List RestartTerm.Sub)
+    (hok : RestartTerm.SubsOK fl w.restart.a.d (St.init w.totals) xs) (evs : List WEv)
+    (hrun : RestartTerm.RunE fl (RestartTerm.resubmitted fl w xs) evs) (j : Nat) (rest : List Cb)
+    (hq : (W.run fl (RestartTerm.resubmitted fl w xs) evs).a.s.ready = .start j :: rest) :
+    let w' := W.run fl (RestartTerm.resubmitted fl w xs) evs
+    (match (w'.a.d.dir (w'.a.s.jobs j).ident).pid with | some p => w'.a.d.alive p | none => false) = false := by
+  obtain ⟨s1, s2, s3, s4, _⟩ := RestartTerm.resubmitted_sound hg hf ha hW hnl xs hok
+  obtain ⟨⟨_, r2, r3, r4⟩, _, _⟩ := RestartTerm.runE_bound hg hf ha hrel evs _ s1 s2 s3 s4 hrun
+  exact RestartTerm.noAdopt_of_own r2 r3 r4 j rest hq
+
+/-- **"the second run reaches the same final results" (partial: restarts that find no live process)**.  Same
+    hypotheses as `restart_run_finite_partial`, plus: no job asks for more of a token than exists (`TokFit`, as in C06).
+    Every *maximal* run `evs` of the second scheduler — in its last world no callback is queued, no helper thread can
+    complete, no job process can move — is finite (`≤ wmu` events) and ends in a reachable world `w'` (so every theorem
+    of this file applies to it) in which
+    * every job of the second scheduler is final (`AllFinal`), nothing was adopted;
+    * (b) every token is full, no job holds a token, every run lock is free, every job process (orphans of the first
+      run included) has exited;
+    * (a) every job reported DONE has its success marker, and — if the marker was not there initially — exactly one
+      body of it ever succeeded, over both runs, and if none failed its body was started exactly once overall. -/
+theorem restart_maximal_run_all_final_partial {fl : Flags} (hg : fl.readyGuarded = true)
+    (hf : fl.resubmitRegisters = true) (ha : fl.abortRechecks = true) (hrel : fl.abortReleases = true)
+    {totals : List Nat} {done0 : Nat → Bool} {w : W}
+    (hW : WReach fl totals done0 w) (hnl : RestartTerm.NoLivePid w.restart.a.d) (xs : List RestartTerm.Sub)
+    (hok : RestartTerm.SubsOK fl w.restart.a.d (St.init w.totals) xs)
+    (hfit : SchedFinal.TokFit (RestartTerm.resubmitted fl w xs).a.s) (evs : List WEv)
+    (hrun : RestartTerm.RunE fl (RestartTerm.resubmitted fl w xs) evs)
+    (hmax : ∀ e, ¬ RestartTerm.WEnabled (W.run fl (RestartTerm.resubmitted fl w xs) evs) e) :
+    let w' := W.run fl (RestartTerm.resubmitted fl w xs) evs
+    evs.length ≤ RestartTerm.wmu (RestartTerm.resubmitted fl w xs) ∧
+    WReach fl totals done0 w' ∧ SchedFinal.AllFinal w'.a.s ∧ (∀ j, w'.a.adopted j = false) ∧
+    (∀ t, w'.a.s.avail t = w'.a.s.total t) ∧ (∀ j, (w'.a.s.jobs j).held = []) ∧
+    (∀ i, (w'.a.d.dir i).lock = .free) ∧ (∀ p, (w'.a.d.procs p).ph = .gone) ∧
+    (∀ j, (w'.a.s.jobs j).pc = .finished .done →
+      (w'.a.d.dir (w'.a.s.jobs j).ident).done = true ∧
+      (done0 (w'.a.s.jobs j).ident = false →
+        (w'.a.d.dir (w'.a.s.jobs j).ident).succ = 1 ∧
+        ((w'.a.d.dir (w'.a.s.jobs j).ident).fails = 0 → (w'.a.d.dir (w'.a.s.jobs j).ident).bodies = 1))) := by
+  intro w'
+  obtain ⟨h1, h2, _, _, h5, h6, h7⟩ := RestartTerm.restart_maximal_run_partial hg hf ha hrel hW hnl xs hok hfit evs hrun hmax
+  obtain ⟨d1, d2, d3⟩ := RestartTerm.maximal_disk_idle h2 h5 hmax
+  refine ⟨h1, h2.reach, h5, h2.noad, h6, h7, d1, d2, ?_⟩
+  intro j hfin
+  refine ⟨done_has_marker h2.reach j hfin, fun h0 => ?_⟩
+  obtain ⟨e1, e2⟩ := exactly_once_done h2.reach j hfin h0
+  exact ⟨e1, fun hfl => e2 hfl (d3 _)⟩
+
+/-- **maximal runs of the second scheduler exist (partial: same hypotheses)**: from the world right after the
+    re-submission some run of enabled events reaches a world in which no event is enabled — the hypothesis `hmax` of
+    `restart_maximal_run_all_final_partial` can always be met, by simply letting the second run go on. -/
+theorem restart_maximal_run_exists_partial {fl : Flags} (hg : fl.readyGuarded = true)
+    (hf : fl.resubmitRegisters = true) (ha : fl.abortRechecks = true) (hrel : fl.abortReleases = true)
+    {totals : List Nat} {done0 : Nat → Bool} {w : W}
+    (hW : WReach fl totals done0 w) (hnl : RestartTerm.NoLivePid w.restart.a.d) (xs : List RestartTerm.Sub)
+    (hok : RestartTerm.SubsOK fl w.restart.a.d (St.init w.totals) xs) :
+    ∃ evs, RestartTerm.RunE fl (RestartTerm.resubmitted fl w xs) evs ∧
+      ∀ e, ¬ RestartTerm.WEnabled (W.run fl (RestartTerm.resubmitted fl w xs) evs) e :=
+  RestartTerm.restart_maximal_run_exists hg hf ha hrel _ _ (RestartTerm.resubmitted_sound2 hg hf ha hW hnl xs hok)
+    (Nat.le_refl _)
+
 /-! ### non-vacuity: concrete runs (evaluated by the kernel) -/
 
 def fl0 : Flags := { readyGuarded := true, resubmitRegisters := true, abortRechecks := true }
@@ -231,6 +349,70 @@ example :
        .sched (.submit 5 [] 0 false), .sched .step, .sched (.deliver 0), .sched .step]
     (w.a.s.jobs 0).marker = true ∧ (w.a.s.jobs 0).launches = 0 ∧ (w.a.s.jobs 0).pc = .finished .done ∧
     (w.a.d.dir 5).bodies = 1 := by decide
+
+/-- the hypotheses of `restart_run_finite_partial` on a concrete world: the scheduler dies between `Popen` and the
+    pid-file write (the orphan process 0 is alive, no pid file names it); identifier 5 is re-submitted; the run of the
+    second scheduler below (launch behind the orphan's lock, both processes, all callbacks) is a run of enabled events;
+    the bound `wmu` of the theorem is 1015 for it, the run has 14 events and ends with the job DONE, one body, the
+    scheduler with nothing queued and no helper thread. -/
+def orphanW : W := W.run fl0 (W.init [] (fun _ => false))
+  [.sched (.submit 5 [] 0 false), .sched .step, .sched (.deliver 0), .crashAfterSpawn 0]
+
+def orphanSecondRun : List WEv :=
+  [.sched .step, .proc 0 false, .proc 0 false, .proc 0 true,
+   .sched (.deliver 0), .sched .step, .sched (.deliver 0), .sched .step, .proc 1 true, .proc 1 true,
+   .sched (.deliver 0), .sched .step, .sched (.deliver 0), .sched .step]
+
+example : WReach fl0 [] (fun _ => false) orphanW := ⟨_, rfl⟩
+example : orphanW.a.d.alive 0 = true := by decide
+example : RestartTerm.NoLivePid orphanW.restart.a.d :=
+  RestartTerm.noLivePid_of_b (wreach_inv (WReach.apply (fl := fl0) (totals := []) (done0 := fun _ => false) ⟨_, rfl⟩ .crash)).disk
+    (by decide)
+example : RestartTerm.SubsOK fl0 orphanW.restart.a.d (St.init orphanW.totals) [⟨5, [], 0⟩] :=
+  ⟨fun o ho => (by cases ho), List.nodup_nil, fun j hj => absurd hj (Nat.not_lt_zero j), trivial⟩
+example : RestartTerm.RunE fl0 (RestartTerm.resubmitted fl0 orphanW [⟨5, [], 0⟩]) orphanSecondRun :=
+  RestartTerm.runE_of_b _ _ _ (by decide)
+example : RestartTerm.wmu (RestartTerm.resubmitted fl0 orphanW [⟨5, [], 0⟩]) = 1015 ∧ orphanSecondRun.length = 14 := by decide
+example :
+    let w := W.run fl0 (RestartTerm.resubmitted fl0 orphanW [⟨5, [], 0⟩]) orphanSecondRun
+    (w.a.s.jobs 0).pc = .finished .done ∧ w.a.adopted 0 = false ∧ (w.a.d.dir 5).bodies = 1 ∧ (w.a.d.dir 5).spawns = 2 ∧
+    w.a.s.ready = [] ∧ w.a.s.threads = [] := by decide
+
+/-- the run above is maximal: in its last world no event is enabled (hypothesis `hmax` of
+    `restart_maximal_run_all_final_partial`); `TokFit` holds (no token). -/
+example : ∀ e, ¬ RestartTerm.WEnabled (W.run fl0 (RestartTerm.resubmitted fl0 orphanW [⟨5, [], 0⟩]) orphanSecondRun) e := by
+  intro e h
+  cases e with
+  | sched ev =>
+    cases ev with
+    | step => exact h (by decide)
+    | deliver k =>
+      obtain ⟨kind, j, c, d', hk, _⟩ := h
+      have : (W.run fl0 (RestartTerm.resubmitted fl0 orphanW [⟨5, [], 0⟩]) orphanSecondRun).a.s.threads = [] := by decide
+      rw [this] at hk; simp at hk
+    | submit _ _ _ _ => exact h
+    | wait => exact h
+  | proc p rm =>
+    obtain ⟨hp, hph⟩ := h
+    have hn : (W.run fl0 (RestartTerm.resubmitted fl0 orphanW [⟨5, [], 0⟩]) orphanSecondRun).a.d.np = 2 := by decide
+    rw [hn] at hp
+    have : p = 0 ∨ p = 1 := by omega
+    rcases this with rfl | rfl <;> revert hph <;> decide
+  | crash => exact h
+  | crashAfterSpawn j => exact h
+  | crashInPrepare j st => exact h
+example : SchedFinal.TokFit (RestartTerm.resubmitted fl0 orphanW [⟨5, [], 0⟩]).a.s := by
+  intro j i t c hi ho
+  have hn : (RestartTerm.resubmitted fl0 orphanW [⟨5, [], 0⟩]).a.s.n = 1 := by decide
+  by_cases hj : j = 0
+  · subst hj
+    have h0 : ((RestartTerm.resubmitted fl0 orphanW [⟨5, [], 0⟩]).a.s.jobs 0).deps.length = 0 := by decide
+    rw [h0] at hi; exact absurd hi (Nat.not_lt_zero _)
+  · exfalso
+    have hb := (RestartTerm.resubmitted_sound (fl := fl0) rfl rfl rfl (w := orphanW) (totals := []) (done0 := fun _ => false)
+      ⟨_, rfl⟩ (RestartTerm.noLivePid_of_b (wreach_inv (WReach.apply (fl := fl0) (totals := []) (done0 := fun _ => false) (w := orphanW) ⟨_, rfl⟩ .crash)).disk (by decide))
+      [⟨5, [], 0⟩] ⟨fun o ho => (by cases ho), List.nodup_nil, fun j hj => absurd hj (Nat.not_lt_zero j), trivial⟩).2.1.e.c.st.blankDeps j (by omega)
+    rw [hb] at hi; exact absurd hi (Nat.not_lt_zero _)
 
 /-- obligation on the current source: the three scheduler repairs are present (the driver runs the model with these flags) -/
 theorem scheduler_flags : Gen.schedFlags.readyGuarded = true ∧ Gen.schedFlags.resubmitRegisters = true ∧ Gen.schedFlags.abortRechecks = true := by decide
